@@ -58,7 +58,7 @@ Viols(e, pre) ==
      (IF "fatal" \in SeqToSet(e.obs.kinds) THEN {<<"C14", "non-temporary-error-for-connection-failure">>} ELSE {}) \cup
      (IF "timeout" \in SeqToSet(e.obs.kinds) THEN {<<"C14", "listener-did-not-return">>} ELSE {})
    ELSE {}) \cup
-  (IF "C14" \in Props /\ e.op.op = "Dial" /\ pre.rec[e.op.k] /\ Connectable(pre, pre.cert[e.op.k]) /\ e.res # "auth"
+  (IF "C14" \in Props /\ e.op.op = "Dial" /\ pre.rec[e.op.k] /\ (Connectable(pre, pre.cert[e.op.k]) \/ pre.cert[e.op.k] = "pending") /\ e.res # "auth"
      THEN {<<"C14", "honest-node-cannot-connect">>} ELSE {}) \cup
   (IF "C16" \in Props /\ e.res = "auth" /\ e.op.op \in {"Dial", "Connect"} THEN
      (IF ~e.obs.offeredOK THEN {} ELSE
